@@ -182,7 +182,7 @@ Silent ==
   /\ l <= Len(TraceLog)
   /\ UNCHANGED l
   /\ \/ \E c \in Clients : C_Enqueue(c) \/ C_Apply(c) \/ C_RefusedClosing(c)
-     \/ S_TickFlush \/ W_Dead
+     \/ S_TickFlush \/ W_Dead \/ E_CoreClose
      \/ (wclosed /\ (S_Truncate \/ R_Replace \/ A_End("snap") \/ A_End("rw") \/ A_Fail))   \* command refused after Close: no cmd event
      \/ A_Capture("snap")
 
